@@ -484,9 +484,8 @@ class _W:
         r = _call(n.H.hash, op["pw"])
         self.compare(before, self.snapshots(skip=(op["node"],)), f"hash() on node {op['node']}")
         self.ctx.log("hash", op["node"], r[:2])
-        if n.base in TRUNC and n.trunc is not None and not n.dirty and op["pw"].isascii():
-            # (ASCII only: how the limit applies to multi-byte characters is property C05's business, not judged here)
-            over = len(op["pw"].encode("utf-8")) > TRUNC[n.base]
+        if n.base in TRUNC and n.trunc is not None and not n.dirty:
+            over = len(op["pw"].encode("utf-8")) > TRUNC[n.base]  # the limits count bytes of the encoded password
             refused = r[0] == "exc" and r[1] == "PasswordTruncateError"
             self.ctx.check(refused == (over and n.trunc), "C09", "truncation-policy-differs-from-settings",
                            lambda: f"{n.base} (depth {n.depth}) configured truncate_error={n.trunc}: hash of a {len(op['pw'].encode('utf-8'))}-byte password "
